@@ -506,8 +506,19 @@ class Driver:
         if col is None:
             return None
         val = "dn " + self.w.new_token()
-        if self.rng.random() < 0.2 and X.P_DISPLAYNAME in col.props:
+        k = self.rng.random()
+        if k < 0.15 and X.P_DISPLAYNAME in col.props:
             self.w.proppatch(col.path, removes=[X.P_DISPLAYNAME])
+        elif k < 0.5 and col.kind == "calendar":
+            # colours as clients send them, with and without the leading '#'
+            v = self.rng.choice(["#112233", "FF8800", "#AABBCCDD", "00ff00", "0000FF", "#fff"])
+            if not v.startswith("#"):
+                self.count("proppatch_colour_without_hash")
+            self.w.proppatch(col.path, sets=[(X.P_CALCOLOR, v)])
+        elif k < 0.6 and col.kind == "calendar":
+            self.w.proppatch(col.path, sets=[(X.P_CALDESC, "descr " + self.w.new_token())])
+        elif k < 0.5 and col.kind == "addressbook":
+            self.w.proppatch(col.path, sets=[(X.P_ABDESC, "descr " + self.w.new_token())])
         else:
             self.w.proppatch(col.path, sets=[(X.P_DISPLAYNAME, val)])
         return [col.path]
